@@ -133,10 +133,10 @@ CLAIMED = {
     ),
     "C14": dict(
         category="other",
-        text="Against model servers that apply the sent Subscribe/StopSubscribe entries in order, every subscriber operation (subscribe, stop-subscribe, both in one loop iteration, start with the refresh task's arbitrary iteration, stop, connection loss) is proved to keep 'each server holds exactly the eventgroups requested from it while the subscriber runs, none afterwards'; every Subscribe carries the ids, the configured TTL and one endpoint option with the local address, port and protocol, goes only to its server, and the refresh round recurs exactly one interval later. Requested set and local endpoints bounded/representative, hence level other.",
+        text="Against model servers that apply the sent Subscribe/StopSubscribe entries in order, every subscriber operation (subscribe, stop-subscribe, both in one loop iteration, start with the refresh task's arbitrary iteration, stop, connection loss) is proved to keep 'each server holds exactly the eventgroups requested from it while the subscriber runs, none afterwards'; every Subscribe carries the ids, the configured TTL and one endpoint option with the local address, port and protocol, goes only to its server, and the refresh round recurs exactly one interval later. The loops and the comprehension over the requested set are additionally verified element-wise for arbitrarily many eventgroups and servers (_group_entries by a loop contract with a havocked accumulator: an arbitrary pair is appended to the list of exactly its server; refresh round and stop: an arbitrary (server, eventgroups) group is sent / queued exactly once as collected; _send_subscribe: an arbitrary eventgroup yields exactly its entry with the given TTL, one message to that server). The end-to-end server model runs on a requested set of bounded shape and the local endpoints are representative, hence level other.",
         design_ref="DESIGN.md 4/C14",
-        technique="monitor invariant preserved by each operation + coroutine/loop contract, symbolic execution of the real AST over the event-loop model + SMT",
-        note=TRUST + LOOP + "; getnameinfo evaluated on four concrete local endpoints",
+        technique="monitor invariant preserved by each operation (bounded server model) + element-wise loop / comprehension contracts over an unbounded requested set, symbolic execution of the real AST over the event-loop model + SMT",
+        note=TRUST + LOOP + "; getnameinfo evaluated on four concrete local endpoints; composition of the element-wise contracts into the end-to-end statement is the trusted induction over the elements",
     ),
     "C17": dict(
         category="proof",
